@@ -51,7 +51,10 @@ type bsLogEntry struct {
 	ret     int
 }
 
+type bsAbort struct{}
+
 type bsMachine struct {
+	prof     string // focus property ("" = every assertion active)
 	t        *rapid.T
 	st       *vkit.Stats
 	b        *bigbuff.Buffer
@@ -101,9 +104,54 @@ func (m *bsMachine) tr(format string, args ...any) {
 	m.trace = append(m.trace, fmt.Sprintf(format, args...))
 }
 
+// on reports whether assertions belonging to any of the given properties are active in this run.
+func (m *bsMachine) on(props ...string) bool {
+	if m.prof == "" {
+		return true
+	}
+	for _, p := range props {
+		if p == m.prof {
+			return true
+		}
+	}
+	return false
+}
+
 func (m *bsMachine) fail(sig string, format string, args ...any) {
 	m.t.Helper()
-	vkit.Fail(m.t, sig, "%s\ntrace: %s", fmt.Sprintf(format, args...), strings.Join(m.trace, " ; "))
+	if tags := strings.Split(sig[:strings.Index(sig, "/")], "+"); !m.on(tags...) {
+		// a divergence that belongs to another property: this check neither reports it nor trusts the
+		// model afterwards; the case is abandoned quietly
+		vkit.Other(m.st, sig)
+		m.emergencyCleanup()
+		panic(bsAbort{})
+	}
+	msg := fmt.Sprintf("%s\ntrace: %s", fmt.Sprintf(format, args...), strings.Join(m.trace, " ; "))
+	vkit.Announce(sig, "%s", msg)
+	m.emergencyCleanup()
+	m.t.Fatalf("[%s] %s", sig, msg)
+}
+
+// emergencyCleanup releases, as far as the (possibly broken) library allows, everything a failing case
+// still holds, so that the bubble can end and rapid can shrink; goroutines parked on a mutex are not
+// durably blocked, so without this a failing case could wedge its bubble.
+func (m *bsMachine) emergencyCleanup() {
+	for _, c := range m.cons {
+		if c.getCancel != nil {
+			c.getCancel()
+		}
+		cc := c.c
+		go func() { _ = cc.Rollback() }()
+	}
+	b := m.b
+	go func() { _ = b.Close() }()
+	for i := 0; i < 5; i++ {
+		bsSpin()
+		for _, c := range m.cons {
+			cc := c.c
+			go func() { _ = cc.Rollback() }()
+		}
+	}
 }
 
 func (m *bsMachine) nextTokens(k int) []int {
@@ -207,13 +255,13 @@ func (m *bsMachine) check() {
 		if !should {
 			if c.getOp.Finished() {
 				if c.getOp.Panic != nil {
-					m.fail("C05/get-panic", "Get(c%d) panicked: %v", c.id, c.getOp.Panic)
+					m.fail("C01+C02+C03+C05+C12/get-panic", "Get(c%d) panicked: %v", c.id, c.getOp.Panic)
 				}
 				r := c.getOp.Res.(bsGetRes)
 				if r.err == nil {
 					m.fail("C01/get-invented", "Get(c%d) returned %v although no value is available at position %d (|G|=%d)", c.id, r.v, c.pos(), len(m.G))
 				}
-				m.fail("C05/get-spurious-error", "Get(c%d) returned error %v although nothing is available, its ctx is live and the buffer is open", c.id, r.err)
+				m.fail("C03+C05/get-spurious-error", "Get(c%d) returned error %v although nothing is available, its ctx is live and the buffer is open", c.id, r.err)
 			}
 			continue
 		}
@@ -260,13 +308,13 @@ func (m *bsMachine) finishGet(c *bsCons, wantVal int, wantErr bool) {
 	}
 	c.getCtxErr = false
 	if op.Panic != nil {
-		m.fail("C05/get-panic", "Get(c%d) panicked: %v", c.id, op.Panic)
+		m.fail("C01+C02+C03+C05+C12/get-panic", "Get(c%d) panicked: %v", c.id, op.Panic)
 	}
 	r := op.Res.(bsGetRes)
 	if wantErr {
 		if r.err == nil {
 			if c.pos() < m.base {
-				m.fail("C03/lagging-got-value", "Get(c%d) returned %v although its next value (index %d) was evicted (base %d): must fail loudly", c.id, r.v, c.pos(), m.base)
+				m.fail("C01+C03/lagging-got-value", "Get(c%d) returned %v although its next value (index %d) was evicted (base %d): must fail loudly", c.id, r.v, c.pos(), m.base)
 			}
 			m.fail("C05+C12/get-value-after-cancel-or-close", "Get(c%d) returned %v, expected an error (closed=%v open=%v)", c.id, r.v, m.closed, c.open)
 		}
@@ -305,15 +353,22 @@ func (m *bsMachine) checkObservers() {
 		m.fail("C03/size-range", "Size()=%d with only %d values ever put", size, len(m.G))
 	}
 	for i, v := range sl {
+		if !m.on("C01", "C03", "C12") {
+			break
+		}
 		if v != any(m.G[nb+i]) {
-			m.fail("C03/slice-content", "Slice()[%d]=%v, expected %d: Slice must equal the not-yet-evicted suffix of the put order", i, v, m.G[nb+i])
+			m.fail("C01+C03+C12/slice-content", "Slice()[%d]=%v, expected %d: Slice must equal the not-yet-evicted suffix of the put order", i, v, m.G[nb+i])
 		}
 	}
-	if nb < m.base {
+	if nb < m.base && m.on("C03") {
 		m.fail("C03/base-regressed", "evicted values reappeared: base %d -> %d", m.base, nb)
 	}
 	// cleaner log replay
-	if m.logOn {
+	if !m.on("C03") {
+		m.logMu.Lock()
+		m.logSeen = len(m.log)
+		m.logMu.Unlock()
+	} else if m.logOn {
 		m.logMu.Lock()
 		entries := append([]bsLogEntry(nil), m.log[m.logSeen:]...)
 		m.logSeen = len(m.log)
@@ -340,7 +395,7 @@ func (m *bsMachine) checkObservers() {
 		if nb != pred {
 			m.fail("C03/shift-applied", "cleaner returned shifts leading to base %d, observed base %d (Size=%d)", pred, nb, size)
 		}
-	} else if nb != m.base && nb != m.defaultTarget(m.base) && !m.allowed[nb] {
+	} else if m.on("C03") && nb != m.base && nb != m.defaultTarget(m.base) && !m.allowed[nb] {
 		m.fail("C03/evicted-unexpected", "base moved %d -> %d, default cleaner allows only %d", m.base, nb, m.defaultTarget(m.base))
 	}
 	// retention (default-style cleaners): nothing an open consumer has not committed past is evicted
@@ -357,7 +412,7 @@ func (m *bsMachine) checkObservers() {
 		if anyOpen {
 			m.nEvictOpen++
 		}
-		if m.cleaner == "unset" || m.cleaner == "default" || (m.cleaner == "fixed" && len(m.G)-m.base <= m.fixMax) {
+		if m.on("C03") && (m.cleaner == "unset" || m.cleaner == "default" || (m.cleaner == "fixed" && len(m.G)-m.base <= m.fixMax)) {
 			if !anyOpen && m.simple {
 				m.fail("C03/evicted-without-consumer", "base moved %d -> %d although no consumer exists", m.base, nb)
 			}
@@ -372,7 +427,7 @@ func (m *bsMachine) checkObservers() {
 	m.base = nb
 	m.allowed = nil
 	// reclamation (C04): cooldown elapsed since the last change => fully consumed prefix is gone
-	if !m.closed && !m.cfgDirty {
+	if !m.closed && !m.cfgDirty && m.on("C04") {
 		elapsed := time.Since(m.lastChg)
 		if m.cooldown == 0 || elapsed >= m.cooldown+time.Microsecond {
 			switch m.cleaner {
@@ -399,11 +454,14 @@ func (m *bsMachine) checkObservers() {
 		if c.busy() {
 			continue
 		}
+		if !m.on("C03", "C12") {
+			break
+		}
 		d, ok := m.b.Diff(c.c)
 		if ok != c.open {
 			m.fail("C03+C12/diff-registered", "Diff(c%d) ok=%v, consumer open=%v", c.id, ok, c.open)
 		}
-		if c.open {
+		if c.open && m.on("C03") {
 			if want := len(m.G) - c.pos(); d != want {
 				m.fail("C03/diff-value", "Diff(c%d)=%d, expected %d (= %d put - read position %d)", c.id, d, want, len(m.G), c.pos())
 			}
@@ -1160,7 +1218,16 @@ func bsWeights(prof string) map[string]int {
 }
 
 func bsRun(t *rapid.T, st *vkit.Stats, prof string) {
-	m := &bsMachine{t: t, st: st, b: new(bigbuff.Buffer)}
+	m := &bsMachine{prof: prof, t: t, st: st, b: new(bigbuff.Buffer)}
+	defer func() {
+		if r := recover(); r != nil {
+			if _, ok := r.(bsAbort); ok {
+				return
+			}
+			panic(r)
+		}
+	}()
+	vkit.CaseStart(func() string { return strings.Join(m.trace, " ; ") })
 	m.lastChg = time.Now()
 	// configuration
 	if rapid.IntRange(0, 4).Draw(t, "configure") == 0 {
